@@ -19,7 +19,7 @@ RULE = (
     "selected faces are exactly the reference selection computed from the mesh (set-based incidence, my own spherical "
     "distances), no duplicates, result face i has the corner positions of source face subgrid_face_indices[i]; sliced data "
     "sit on the same physical elements (matched geometrically); every derived connectivity / geometry of the result equals "
-    "what a grid freshly built from the result's own faces reports (numbering-free comparison). Non-trivial = the selection "
+    "what a grid freshly built from the result's own faces reports (numbering-free comparison). Sources may carry Cartesian coordinates on a sphere of radius 2.5 or 6371229 (MPAS sphere_radius / node_x,y,z next to lon/lat). Non-trivial = the selection "
     "is a proper subset and (something was materialised before slicing or data are attached); distinct by case hash."
 )
 ASSUMPTIONS = [
